@@ -552,6 +552,7 @@ def setup(rep, tier):
     rep.minimum('R17.7', 4)
     rep.minimum('R17.8', 6)
     rep.minimum('R17.9', 1)
+    rep.minimum('R17.10', 1)
     if tier == 'thorough':
         rep.minimum('R17.5', 1)
     rep.trusted.append('python port of log2_frac (celt/cwrs.c) used as the generator oracle for the pulse cache; exact integer recurrence for U')
@@ -742,6 +743,154 @@ def r17_9(rep, prog, tier):
     return n
 
 
+# ------------------------------------------------------------------ R17.10
+def r17_10(rep, prog):
+    """escape-coded magnitudes are prefix-free: a decoder that keeps reading symbols from a table while the symbol equals
+    an escape value K (`do v = dec(table) while (v == K)`) is matched by an encoder whose every emission to that table is
+    the escape value exactly when another emission follows.  Per emission site of the encoder and per magnitude in
+    0..6K that the branch facts at the site allow: the symbol expression is evaluated, the statements up to the next
+    decisions are evaluated, and the successor reached is classified from the CFG (every path emits again / no path does).
+    `symbol == K` must equal `another emission follows`: a final escape symbol makes the codeword a proper prefix of its
+    neighbours, a non-final non-escape symbol ends the decoder's loop early."""
+    from .. import decide, cfg as cfgm, templates as T
+    n = 0
+    for f in prog.functions_all:
+        if not f.file.endswith('laplace.c') or 'encode' not in f.name:
+            continue
+        dname = f.name.replace('encode', 'decode')
+        if not prog.has_fn(dname):
+            continue
+        d = prog.fn(dname)
+        # decoder: loop condition `v == K` on a local assigned from a table decode call
+        dloc = set()
+        for x in d.all_nodes():
+            if x[0] == 'assign' and sx.kind(sx.strip(x[1])) == 'local' and sx.kind(sx.strip(x[2])) == 'call' and 'icdf' in (sx.callee_name(sx.strip(x[2])) or ''):
+                dloc.add(sx.key(sx.strip(x[1])))
+        dcf = cfgm.CFG(d)
+        K = None
+        for h, latch, body in dcf.natural_loops():
+            for b in body:
+                c = dcf.cond(b)
+                if c is not None:
+                    c = sx.strip(c)
+                    if sx.kind(c) == 'bin' and c[1] == '==' and sx.key(sx.strip(c[2])) in dloc and sx.int_val(sx.strip(c[3])) is not None:
+                        K = sx.int_val(sx.strip(c[3]))
+        if K is None:
+            continue
+        vpar = [i for i, q in enumerate(f.params) if 'int' in q['type'] and '*' not in q['type'] and q['name'] == 'value']
+        if not vpar:
+            continue
+        cf = cfgm.CFG(f)
+        kv = None
+        sites = []
+        for b, i, c in cf.find(lambda x: x[0] == 'call' and 'icdf' in (sx.callee_name(x) or '') and len(x[2]) >= 3):
+            sym = c[2][1]
+            tab = sx.lvalue_root(c[2][2])
+            sites.append((b, i, c, sym, sx.key(tab) if isinstance(tab, list) else str(tab)))
+        valkeys = set(sx.key(y) for _, _, _, sym, _ in sites for y in sx.walk(sym) if sx.kind(y) == 'param' and y[1] == vpar[0])
+        if not valkeys:
+            continue
+        kv = list(valkeys)[0]
+        tabs = set(t for _, _, _, sym, t in sites if any(sx.key(y) == kv for y in sx.walk(sym)))
+        sites = [s_ for s_ in sites if s_[4] in tabs]
+        eblocks = set(s_[0] for s_ in sites)
+
+        def never(x):
+            return x not in eblocks and not (cf.reachable_from(x) & eblocks)
+
+        def must(x):
+            return x in eblocks or (cf.exit not in cf.reachable_from(x, avoid=tuple(eblocks)) and x != cf.exit)
+
+        def follows(b, i, v):
+            env = {kv: v}
+            for _ in range(8):
+                blk = f.blocks[b]
+                for j, st in enumerate(blk['stmts']):
+                    if j <= i:
+                        continue
+                    if any(s_[0] == b and s_[1] == j for s_ in sites):
+                        return True
+                    k = sx.kind(st)
+                    if k in ('assign', 'cassign'):
+                        env2 = dict(env)
+                        if k == 'assign' and sx.key(sx.strip(st[1])) == kv:
+                            r = decide.ev3(st[2], env)
+                            if r is None:
+                                return None
+                            env2[kv] = r
+                        elif k == 'cassign' and sx.key(sx.strip(st[2])) == kv:
+                            r = decide.ev3(['bin', st[1], ['int', env[kv]], st[3]], env)
+                            if r is None:
+                                return None
+                            env2[kv] = r
+                        env = env2
+                    elif k == 'inc' and sx.key(sx.strip(st[3])) == kv:
+                        env = {kv: env[kv] + (1 if '+' in str(st[1]) else -1)}
+                es = cf.edges(b)
+                c = cf.cond(b)
+                nxt = None
+                if c is not None and len(es) == 2 and es[0][1] is not None:
+                    r = decide.ev3(c, env)
+                    if r is None:
+                        return None
+                    nxt = [s_ for s_, pol in es if pol == bool(r)]
+                    nxt = nxt[0] if nxt else None
+                elif len(es) == 1:
+                    nxt = es[0][0]
+                if nxt is None:
+                    return False
+                if never(nxt):
+                    return False
+                if must(nxt) and nxt not in eblocks:
+                    return True
+                if nxt in eblocks:
+                    # emission inside the block: is it reached before any decision? it is a statement of the block
+                    return True
+                b, i = nxt, -1
+            return None
+
+        def allowed(b, i, v):
+            for a in T.stable_facts(cf, b, i):
+                if len(a) == 3 and a[1] == kv and isinstance(a[2], tuple) and a[2][0] == 'int':
+                    r = decide.ev3(['bin', a[0], ['int', v], ['int', a[2][1]]], {})
+                    if r == 0:
+                        return False
+                if len(a) == 3 and a[2] == kv and isinstance(a[1], tuple) and a[1][0] == 'int':
+                    r = decide.ev3(['bin', a[0], ['int', a[1][1]], ['int', v]], {})
+                    if r == 0:
+                        return False
+            return True
+
+        for b, i, c, sym, t in sites:
+            n += 1
+            inst = '%s:%s line %s emits the escape symbol %d exactly when another symbol follows' % (prog.config, f.name, sx.line(c), K)
+            where = '%s:%s' % (f.file, sx.line(c))
+            bad = None
+            cnt = 0
+            for v in range(0, 6 * K + 1):
+                if not allowed(b, i, v):
+                    continue
+                sv = decide.ev3(sym, {kv: v})
+                more = follows(b, i, v)
+                if sv is None or more is None:
+                    bad = ('unresolved', 'value %d: symbol or continuation not evaluable' % v)
+                    break
+                cnt += 1
+                if (sv == K) != bool(more):
+                    bad = ('violated', 'remaining magnitude %d: the symbol emitted is %d and %s - the decoder (%s) %s' % (
+                        v, sv, 'no further symbol is written' if not more else 'another symbol is written', dname,
+                        'keeps reading after an escape that was the last symbol, so this codeword is a prefix of its neighbours' if not more else 'stops at the first non-escape symbol and leaves the rest in the stream'))
+                    break
+            rep.functions.add(f.name)
+            if bad is None:
+                rep.holds('R17.10', inst, where, '%d magnitudes; escape value %d read from the loop condition of %s' % (cnt, K, dname), n=cnt)
+            elif bad[0] == 'unresolved':
+                rep.unresolved('R17.10', inst + ': ' + bad[1])
+            else:
+                rep.violated('R17.10', inst, where, bad[1], key='%s:escape:%s' % (f.name, sx.show(sym)[:30]))
+    return n
+
+
 # ------------------------------------------------------------------ R17.7
 def _is_mask_def(r):
     r = sx.strip(r)
@@ -843,6 +992,7 @@ def check(rep, prog, tier):
     r17_7(rep, prog)
     r17_6(rep, prog)
     r17_9(rep, prog, tier)
+    r17_10(rep, prog)
     pt = PointsTo(prog)
     r17_1(rep, prog, pt)
     if 'CELT_PVQ_U_DATA' in prog.globals:
